@@ -296,6 +296,18 @@ def check_lattice(ctx, rng, name, l):
         if not judge_edges(ctx, name, l, idx, np.full(nE, 2), scheme, *results["scalar"], rep):
             continue
         ctx.case((name, "edges", sname), nontrivial=bool(np.any(l.edges.crossing[idx] != 0)), sample=dict(case=name, subset=sname, drawn=len(results["full"][0])))
+    # ---- colour schemes in the other forms matplotlib understands: translucent hex strings, RGBA rows, RGB rows, names, grey levels - each piece carries
+    #      exactly the selected colour, alpha included
+    for cname, sch in (("#RRGGBBAA strings", np.array(["#1b9e7780", "#d95f02ff", "#7570b340", "#e7298a01"])), ("RGBA rows", np.array([[0.1, 0.2, 0.3, 0.5], [0.9, 0.1, 0.1, 1.0], [0.0, 0.5, 0.5, 0.25], [0.3, 0.3, 0.3, 0.0]])),
+                       ("RGB rows", np.array([[0.1, 0.2, 0.3], [0.9, 0.1, 0.1], [0.0, 0.5, 0.5], [0.3, 0.3, 0.3]])), ("names", np.array(["tab:blue", "k", "orange", "xkcd:sky blue"])),
+                       ("a list of RGBA tuples", [(0.1, 0.2, 0.3, 0.5), (0.9, 0.1, 0.1, 1.0), (0.0, 0.5, 0.5, 0.25), (0.3, 0.3, 0.3, 0.125)])):
+        rep = lambda what, **kw: ctx.impl_violation(f"{name} [edges, colour scheme given as {cname}]: {what}", dict(case=name, what="edges", scheme=cname, lattice=zoo.lat_to_json(l), **kw))
+        try:
+            segs, cols, _ = edge_artists(l, labels=labels_full, color_scheme=sch)
+        except Exception as ex:
+            ctx.count("colour_scheme_form_rejected"); continue      # a form the library does not take is outside the input space
+        judge_edges(ctx, name, l, np.arange(nE), labels_full, list(sch), segs, cols, rep)
+        ctx.case((name, "edges-scheme", cname), nontrivial=True)
     # arrows
     dirs = rng.choice([-1, 1], size=nE)
     rep = lambda what, **kw: ctx.impl_violation(f"{name} [arrows]: {what}", dict(case=name, what="arrows", lattice=zoo.lat_to_json(l), **kw))
